@@ -1107,5 +1107,6 @@ func init() {
 		x.Add(&Family{Name: "disconnect-ban", Quick: 64, Thor: 1200, Run: disconnectFamily})
 		x.Add(&Family{Name: "ban-history", Quick: 500, Thor: 20000, Run: banHistoryFamily})
 		x.Add(&Family{Name: "concurrent-bans", Quick: 60, Thor: 1500, Run: concurrentBansFamily})
+		c17WaveD(x)
 	}
 }
